@@ -63,6 +63,7 @@ Closure(at, env, name, ps, lam, body, mod) ==
 VecObj(es)           == [k |-> "vec", es |-> es]
 TupObj(es)           == [k |-> "tuple", es |-> es]
 RangeObj(a, b)       == [k |-> "range", a |-> a, b |-> b]
+RangeCacheSize == 8
 InstObj(cls, fields) == [k |-> "inst", cls |-> cls, fields |-> fields]     \* cls: a class value (Cls(name) built-in, or Ref to a class object)
 ClassObj(name, sup, methods, statics) == [k |-> "class", name |-> name, sup |-> sup, methods |-> methods, statics |-> statics]
 BoundObj(recv, meth) == [k |-> "bound", recv |-> recv, meth |-> meth]
@@ -91,7 +92,8 @@ Frame(clo, pc, env, self, mod) ==
    main fiber), and `fresh`: the saved ip of its first frame is still the start of the code, which is
    what ObjFiber::is_new() looks at (it stays so until that frame calls a closure or the fiber is
    switched away from) *)
-Fiber(frames, st) == [frames |-> frames, st |-> st, caller |-> 0, fresh |-> TRUE, clo |-> 0]
+Fiber(frames, st) == [frames |-> frames, st |-> st, caller |-> 0, fresh |-> TRUE, clo |-> 0,
+                      parked |-> Nil]      \* ObjFiber::pending_exception: the exception set aside while a finally-only handler runs
 Cls(name) == [k |-> "cls", v |-> name]
 BuiltinClasses == {"Fiber", "Object", "Error", "RuntimeError", "AttributeError", "IndexError", "ImportError", "NameError",
                    "TypeError", "ValueError", "StopIter", "Type", "Nil", "Bool", "Num", "Func", "BuiltIn", "Method", "BuiltInMethod",
@@ -125,6 +127,8 @@ InitMachineFull(snips, mods) ==
      modst |-> <<>>,            \* per module: "absent" | "loading" | "loaded", and its object
      runs |-> <<>>,             \* results of finished snippets: [out, result]
      store |-> <<>>,
+     sbase |-> 0,               \* length of the store when the prelude had run (objects above it are the program's)
+     rc |-> <<>>,               \* Vm::range_cache: addresses of the (at most 8) most recently CREATED ranges, oldest first
      glob |-> [mod \in {"main"} |-> Builtins],
      fibers |-> <<Fiber(<<[Frame(0, 1, <<>>, Nil, "main") EXCEPT !.seg = 1]>>, "run")>>,
      cur |-> 1,
@@ -179,7 +183,7 @@ Show(m, v, seen) ==
       [] v.k \in {"num", "flt"} -> NumText(v)
       [] v.k = "str" -> v.v
       [] v.k = "nat" -> "<built-in fn " \o v.v \o ">"
-      [] v.k = "cls" -> "<class " \o v.v \o ">"
+      [] v.k = "cls" -> "<class " \o (IF v.v = "Bool" THEN "Boolean" ELSE v.v) \o ">"    \* the global `Bool` names the class Boolean
       [] v.k = "ref" ->
          LET o == m.store[v.v] IN
          CASE o.k = "vec" -> (IF v.v \in seen THEN "[...]" ELSE "[" \o ShowSeq(m, o.es, 1, seen \cup {v.v}) \o "]")
@@ -319,7 +323,11 @@ Deliver(m, c, fi, orig) ==
                   t4 == IF c.c = "return" /\ e.ph = "body" /\ (\E j \in 1..Len(rest) : rest[j].c = "try" /\ rest[j].ph = "body")
                         THEN {"ReturnThroughNestedTry"} ELSE {}
                   t5 == IF PendingSomewhere(m) THEN {"FinallyWhileCompletionPending"} ELSE {}
-              IN [Put(f2) EXCEPT !.trig = m.trig \cup t1 \cup t2 \cup t3 \cup t4 \cup t5]
+                  \* unwind_stack parks the exception in the fiber when the handler has no catch block; it stays there until an
+                  \* EndFinally takes it back (or the next exception is parked), which is what keeps it alive meanwhile
+                  park == c.c = "throw" /\ e.ph = "body" /\ CatchOf(p, e.at) = 0
+              IN [Put(f2) EXCEPT !.trig = m.trig \cup t1 \cup t2 \cup t3 \cup t4 \cup t5,
+                                 !.fibers[m.cur].parked = IF park THEN c.v ELSE @]
       [] OTHER ->
               \* the construct is simply left
               LET t1 == IF e.c = "try" /\ e.ph = "body" /\ c.c \in {"break", "continue"} THEN {"LeftTryBodyByBreakOrContinue"} ELSE {}
@@ -414,17 +422,22 @@ SuperOf(m, c) ==
     ELSE IF c.v \in (ErrorClasses \ {"Error"}) THEN Cls("Error")
     ELSE IF c.v \in {"VecIter", "TupleIter", "RangeIter", "StringIter", "MapIter", "FilterIter"} THEN Cls("Iter")
     ELSE Cls("Object")
+(* the built-in classes that have a metaclass of their own (they carry static methods, or are defined in core.yl); the metaclass
+   of every other built-in class is Type *)
+MetaNamed == ErrorClasses \cup {"String", "Fiber", "Iter", "MapIter", "FilterIter"}
 IsClassValue(m, v) == v.k = "cls" \/ IsKind(m, v, "class")
 (* get_class *)
 ClassOfValue(m, v) ==
     CASE v.k = "nil" -> Cls("Nil") [] v.k = "bool" -> Cls("Bool") [] v.k \in {"num", "flt"} -> Cls("Num") [] v.k = "str" -> Cls("String")
-      [] v.k = "nat" -> Cls("BuiltIn") [] v.k = "cls" -> Cls("Type")
+      [] v.k = "nat" -> Cls("BuiltIn")
+      [] v.k = "cls" -> IF v.v \in MetaNamed THEN Cls(v.v \o "Class") ELSE Cls("Type")
       [] v.k = "ref" ->
          LET o == m.store[v.v] IN
          CASE o.k = "inst" -> o.cls [] o.k = "vec" -> Cls("Vec") [] o.k = "tuple" -> Cls("Tuple") [] o.k = "range" -> Cls("Range")
            [] o.k = "clo" -> Cls("Func") [] o.k = "bound" -> Cls("Method") [] o.k = "fiber" -> Cls("Fiber")
            [] o.k = "iter" -> Cls(CASE o.kind = "vec" -> "VecIter" [] o.kind = "tuple" -> "TupleIter" [] OTHER -> "RangeIter")
            [] o.k = "class" -> Cls(o.name \o "Class")
+           [] o.k = "map" -> Cls("HashMap") [] o.k = "module" -> Cls("Module")
            [] OTHER -> Cls("Object")
 RECURSIVE Derives(_, _, _, _)
 Derives(m, c, q, fuel) == IF c = q THEN TRUE ELSE IF c.k = "nil" \/ fuel = 0 THEN FALSE ELSE Derives(m, SuperOf(m, c), q, fuel - 1)
@@ -752,6 +765,18 @@ Micro(m) ==
               IN IF IsNum(i) THEN
                       LET r == BoundedIndex(m, i, Len(es), kind) IN
                       IF IsErr(r.err) THEN Fail(r.err) ELSE Replace(2, es[r.v.v + 1])
+                 ELSE IF IsKind(m, i, "range") THEN
+                      \* ObjRange::make_bounded_range, then a NEW vector / tuple holding elements[begin..end]
+                      LET len == Len(es)
+                          b0 == Obj(m, i).a  e0 == Obj(m, i).b
+                          b1 == IF b0 < 0 THEN b0 + len ELSE b0
+                          e1 == IF e0 < 0 THEN e0 + len ELSE e0
+                      IN IF b1 < 0 \/ b1 >= len THEN Fail(Err("IndexError", kind \o " slice start out of range."))
+                         ELSE IF e1 < 0 \/ e1 > len THEN Fail(Err("IndexError", kind \o " slice end out of range."))
+                         ELSE LET e2 == IF e1 >= b1 THEN e1 ELSE b1
+                                  part == SubSeq(es, b1 + 1, e2)
+                                  m2 == Alloc(m1, IF kind = "Vec" THEN VecObj(part) ELSE TupObj(part))
+                              IN SetFrame(m2, [fr1 EXCEPT !.vs = Append(PopN(vs, 2), Ref(NewAddr(m1)))])
                  ELSE Fail(Err("TypeError", "Expected an integer or range."))
          ELSE IF o.k = "str" THEN [Finish(m, FALSE, "OutOfModel", <<>>) EXCEPT !.oom = TRUE]
          ELSE Fail(Err("TypeError", "Value '" \o Text(m, o) \o "' is not indexable."))
@@ -772,10 +797,15 @@ Micro(m) ==
                        ELSE IF x.k = "flt" /\ x.v # "-0" THEN (IF x.v = "nan" THEN IntErrV(Text(m, x)) ELSE OOM) ELSE NoErr
          IN IF IsErr(Chk(b)) THEN Fail(Chk(b))
             ELSE IF IsErr(Chk(a)) THEN Fail(Chk(a))
-            ELSE LET hit == {j \in 1..Len(m.store) : m.store[j].k = "range" /\ m.store[j].a = Fin(a) /\ m.store[j].b = Fin(b)} IN
-                 IF hit # {} THEN Replace(2, Ref(CHOOSE j \in hit : TRUE))
-                 ELSE LET m2 == Alloc(m1, RangeObj(Fin(a), Fin(b))) IN
-                      SetFrame(m2, [fr1 EXCEPT !.vs = Append(PopN(vs, 2), Ref(NewAddr(m1)))])
+            ELSE \* Vm::build_range: a hit in the cache returns the cached object (a hit does not refresh its age); a miss creates
+                 \* the range and caches it, replacing the entry that was created longest ago once RANGE_CACHE_SIZE = 8 are held.
+                 \* `==` on ranges is identity, so whether two evaluations of `a..b` are equal depends on exactly this.
+                 LET hit == {j \in 1..Len(m.rc) : m.store[m.rc[j]].a = Fin(a) /\ m.store[m.rc[j]].b = Fin(b)} IN
+                 IF hit # {} THEN Replace(2, Ref(m.rc[CHOOSE j \in hit : TRUE]))
+                 ELSE LET m2 == Alloc(m1, RangeObj(Fin(a), Fin(b)))
+                          rc2 == Append(m.rc, NewAddr(m1))
+                          m3 == [m2 EXCEPT !.rc = IF Len(rc2) > RangeCacheSize THEN Tail(rc2) ELSE rc2] IN
+                      SetFrame(m3, [fr1 EXCEPT !.vs = Append(PopN(vs, 2), Ref(NewAddr(m1)))])
       [] it.i = "foriter" ->
          \* the iterable is on the value stack: fetch its iterator (.iter())
          Invoke(SetFrame(m, [fr1 EXCEPT !.vs = Pop(vs), !.k = <<It("forenter")>> \o fr1.k]), Top(vs), "iter", <<>>)
@@ -981,7 +1011,7 @@ Fetch(m) ==
                    ELSE SetFrame(SetGlobal(m, fr.mod, ctk.x, e.it), [out EXCEPT !.pc = pc + 1])
               [] e.c = "for" -> Jump([frl EXCEPT !.env = SubSeq(fr.env, 1, e.envLen + 1), !.k = <<[i |-> "fornext"]>>, !.pc = e.at])
               [] e.c = "try" /\ e.ph = "finally" /\ e.pend.c # "normal" ->
-                   DeliverHere(SetFrame(m, out), e.pend)
+                   DeliverHere([SetFrame(m, out) EXCEPT !.fibers[m.cur].parked = IF e.pend.c = "throw" THEN Nil ELSE @], e.pend)
               [] OTHER -> Jump([out EXCEPT !.pc = pc + 1])
       [] OTHER -> Finish(m, FALSE, "Stuck", <<"unknown token " \o tk.t>>)
 
@@ -1023,11 +1053,102 @@ StartNext(m) ==
          ELSE LET seg == 1 + nx
                   fb == Fiber(<<[Frame(0, m.segs[seg].lo, <<>>, Nil, "main") EXCEPT !.seg = seg]>>, "run")
               IN [m EXCEPT !.snip = nx, !.fibers = Append(m.fibers, fb), !.cur = Len(m.fibers) + 1, !.main = Len(m.fibers) + 1,
+                           \* the main fiber is an object like any other fiber (a failed fiber keeps its `caller` link to it)
+                           !.store = Append(m.store, [k |-> "fiber", idx |-> Len(m.fibers) + 1]),
                            !.status = "run", !.out = <<>>, !.result = [ok |-> TRUE, kind |-> "", messages |-> <<>>]]
+
+(* =========================================================================================
+   What is still reachable when the runs have ended (C16: garbage is reclaimed; C01: nothing reachable is)
+   ========================================================================================= *)
+(* The roots of the interpreter between runs are the module globals, the module table and the range cache (the stack of the
+   last main fiber is empty).  An object holds exactly the references its definition gives it; a closure holds the variables
+   its code MENTIONS (the compiler captures nothing else), a fiber everything its suspended frames hold.  The harness forces a
+   collection after the last run and compares the number of surviving objects of each kind with LiveCounts. *)
+RECURSIVE DeclsE(_), DeclsEs(_, _)
+DeclsEs(es, i) == IF i > Len(es) THEN {} ELSE DeclsE(es[i]) \cup DeclsEs(es, i + 1)
+DeclsE(e) ==
+    CASE e.k = "var" -> {e.d}
+      [] e.k \in {"bin", "and", "or", "range"} -> DeclsE(e.l) \cup DeclsE(e.r)
+      [] e.k = "un" -> DeclsE(e.e)
+      [] e.k \in {"assign", "cassign"} -> {e.d} \cup DeclsE(e.e)
+      [] e.k = "call" -> DeclsE(e.f) \cup DeclsEs(e.args, 1)
+      [] e.k = "lam" -> DeclsE(e.e)
+      [] e.k \in {"vec", "tup"} -> DeclsEs(e.es, 1)
+      [] e.k = "map" -> DeclsEs(e.kvs, 1)
+      [] e.k = "idx" -> DeclsE(e.o) \cup DeclsE(e.i)
+      [] e.k = "setidx" -> DeclsE(e.o) \cup DeclsE(e.i) \cup DeclsE(e.e)
+      [] e.k = "interp" -> DeclsEs(e.parts, 1)
+      [] e.k = "inv" -> DeclsE(e.o) \cup DeclsEs(e.args, 1)
+      [] e.k = "get" -> DeclsE(e.o)
+      [] e.k \in {"setf", "csetf"} -> DeclsE(e.o) \cup DeclsE(e.e)
+      [] e.k = "superinv" -> {e.d, e.sd} \cup DeclsEs(e.args, 1)
+      [] e.k = "superget" -> {e.d, e.sd}
+      [] e.k = "Self" -> {e.d}
+      [] OTHER -> {}
+DeclsT(tk) == (IF "e" \in DOMAIN tk THEN DeclsE(tk.e) ELSE {}) \cup (IF tk.t = "class" THEN DeclsE(tk.sup) ELSE {})
+               \cup (IF tk.t = "method" /\ tk.kind = "ctor" THEN {} ELSE {})
+CapturedCells(m, c) ==
+    LET ds == IF c.ctor = "default" THEN {}
+              ELSE IF c.lam THEN DeclsE(c.body)
+              ELSE LET j == EndOf(m.prog, c.at) IN UNION {DeclsT(m.prog[q]) : q \in c.at..(IF j = 0 THEN c.at ELSE j)}
+    IN {Lookup(c.env, d) : d \in {x \in ds : x > 0}} \ {0}
+
+RefsV(v) == IF v.k = "ref" THEN {v.v} ELSE {}
+RefsSeq(vs) == UNION {RefsV(vs[i]) : i \in 1..Len(vs)}
+FiberAddr(m, fi) == {a \in 1..Len(m.store) : m.store[a].k = "fiber" /\ m.store[a].idx = fi}
+FrameRefs(m, fr) ==
+    {fr.env[i][2] : i \in 1..Len(fr.env)} \cup RefsSeq(fr.vs) \cup RefsV(fr.self)
+    \cup (IF fr.selfcell > 0 THEN {fr.selfcell} ELSE {}) \cup (IF fr.clo > 0 THEN {fr.clo} ELSE {})
+    \cup UNION {RefsV(fr.ctl[i].it) \cup RefsV(fr.ctl[i].pend.v) : i \in 1..Len(fr.ctl)}
+FiberRefs(m, f) ==
+    UNION {FrameRefs(m, f.frames[i]) : i \in 1..Len(f.frames)} \cup (IF f.clo > 0 THEN {f.clo} ELSE {}) \cup RefsV(f.parked)
+    \cup (IF f.caller > 0 THEN FiberAddr(m, f.caller) ELSE {})
+Succ(m, a) ==
+    LET o == m.store[a] IN
+    CASE o.k = "cell" -> RefsV(o.v)
+      [] o.k \in {"vec", "tuple"} -> RefsSeq(o.es)
+      [] o.k = "map" -> UNION {RefsV(o.es[i][1]) \cup RefsV(o.es[i][2]) : i \in 1..Len(o.es)}
+      [] o.k = "inst" -> RefsV(o.cls) \cup UNION {RefsV(o.fields[f]) : f \in DOMAIN o.fields}
+      [] o.k = "class" -> RefsV(o.sup) \cup UNION {RefsV(o.methods[f]) : f \in DOMAIN o.methods}
+      [] o.k = "clo" -> CapturedCells(m, o)
+      [] o.k = "bound" -> RefsV(o.recv) \cup RefsV(o.meth)
+      [] o.k = "iter" -> {o.src}
+      [] o.k = "fiber" -> FiberRefs(m, m.fibers[o.idx])
+      [] o.k = "module" -> IF o.path \in DOMAIN m.glob THEN UNION {RefsV(m.glob[o.path][x]) : x \in DOMAIN m.glob[o.path]} ELSE {}
+      [] OTHER -> {}
+RECURSIVE ReachFrom(_, _, _)
+ReachFrom(m, seen, frontier) ==
+    IF frontier = {} THEN seen
+    ELSE LET nxt == (UNION {Succ(m, a) : a \in frontier}) \ seen IN ReachFrom(m, seen \cup nxt, nxt)
+(* the interpreter's `fiber` field: after a run that ended inside a fiber with an uncaught error it still names that fiber, whose
+   chain of callers (suspended in the middle of their `call`) stays alive with everything on their stacks until the next run begins *)
+RECURSIVE ActiveChain(_, _, _)
+ActiveChain(m, fi, fuel) == IF fi = 0 \/ fuel = 0 THEN {} ELSE {fi} \cup ActiveChain(m, m.fibers[fi].caller, fuel - 1)
+Roots(m) == UNION {UNION {RefsV(m.glob[mod][x]) : x \in DOMAIN m.glob[mod]} : mod \in DOMAIN m.glob}
+            \cup {m.rc[i] : i \in 1..Len(m.rc)} \cup {m.modst[j].obj : j \in 1..Len(m.modst)}
+            \cup UNION {FiberAddr(m, fi) \cup FiberRefs(m, m.fibers[fi]) : fi \in ActiveChain(m, m.cur, Len(m.fibers))}
+Live(m) == LET r == Roots(m) IN ReachFrom(m, r, r)
+(* counts of the objects created by the program (addresses above the prelude's) that are still reachable, by kind *)
+LiveCounts(m) ==
+    LET live == {a \in Live(m) : a > m.sbase}
+    IN [vec |-> Cardinality({a \in live : m.store[a].k = "vec"}),
+        tuple |-> Cardinality({a \in live : m.store[a].k = "tuple"}),
+        map |-> Cardinality({a \in live : m.store[a].k = "map"}),
+        inst |-> Cardinality({a \in live : m.store[a].k = "inst"}),
+        range |-> Cardinality({a \in live : m.store[a].k = "range"}),
+        fiber |-> Cardinality({a \in live : m.store[a].k = "fiber" /\ m.store[a].idx # m.main}),     \* (the interpreter always holds one main fiber)
+        boundclo |-> Cardinality({a \in live : m.store[a].k = "bound" /\ m.store[a].meth.k = "ref"}),
+        boundnat |-> Cardinality({a \in live : m.store[a].k = "bound" /\ m.store[a].meth.k # "ref"}),
+        veciter |-> Cardinality({a \in live : m.store[a].k = "iter" /\ m.store[a].kind = "vec"}),
+        tupleiter |-> Cardinality({a \in live : m.store[a].k = "iter" /\ m.store[a].kind = "tuple"}),
+        rangeiter |-> Cardinality({a \in live : m.store[a].k = "iter" /\ m.store[a].kind = "range"}),
+        (* a suspended fiber that the program can no longer reach may still be held, legitimately, by a captured variable that
+           lives on its stack (an open upvalue keeps its fiber); the model does not track that link, so such runs are not compared *)
+        exact |-> \A fi \in 1..Len(m.fibers) : (m.fibers[fi].frames # <<>> /\ fi # m.main) => FiberAddr(m, fi) \subseteq Live(m)]
 
 AdvanceRun(m) ==
     IF m.status # "done" \/ m.result.kind \in {"Stuck", "OutOfModel"} THEN m
-    ELSE LET m1 == IF m.snip = 0 THEN [m EXCEPT !.coreglob = m.glob["main"]]          \* the prelude has defined core.yl's classes
+    ELSE LET m1 == IF m.snip = 0 THEN [m EXCEPT !.coreglob = m.glob["main"], !.sbase = Len(m.store)]   \* the prelude has defined core.yl's classes
                    ELSE [m EXCEPT !.runs = Append(m.runs, [out |-> m.out, result |-> m.result])]
          IN StartNext(m1)
 
